@@ -30,4 +30,8 @@ pub trait Control: Send {
     fn pacing_rate(&self) -> Option<usize>;
 
     fn remove_from_bytes_in_flight(&mut self, packets: &mut dyn Iterator<Item = &SentPacket>);
+
+    /// Verification hook (read-only): (congestion window, ssthresh, bytes in flight, recovery start).
+    #[cfg(gmquic_verif)]
+    fn verif_state(&self) -> (usize, usize, usize, Option<Instant>);
 }
